@@ -225,6 +225,20 @@ def replay(ob):
                     bad.append(("get_radii(custom array of %d values, atomic numbers) does not return the array unchanged" % n, np.asarray(got)[:4].tolist(), custom[:4].tolist()))
             except Exception as e:  # noqa
                 bad.append(("get_radii(custom array of %d values)" % n, "%s: %s" % (type(e).__name__, e)))
+        # a preset gives every atom the radius of its own element, whatever the other atoms of the query are
+        for preset, tab in (("covalent", covalent_radii), ("vdw", vdw_radii), ("vdw_covalent", None)):
+            zs = np.arange(1, len(vdw_radii))
+            for order in (zs, zs[::-1], np.array([8, 84]), np.array([61, 6, 88, 1])):
+                try:
+                    got = np.asarray(g.get_radii(preset, order), dtype=float)
+                    one = np.array([float(g.get_radii(preset, np.array([z]))[0]) for z in order])
+                    if got.shape != one.shape or not all(_same(float(a), float(b)) for a, b in zip(got, one)):
+                        k = [i for i, (a, b) in enumerate(zip(got, one)) if not _same(float(a), float(b))][:3]
+                        bad.append(("get_radii(%r, Z) is not element-wise" % preset, [int(order[i]) for i in k], [float(got[i]) for i in k], [float(one[i]) for i in k]))
+                        break
+                except Exception as e:  # noqa
+                    bad.append(("get_radii(%r, %d atomic numbers)" % (preset, len(order)), "%s: %s" % (type(e).__name__, e)))
+                    break
         if bad:
             return {"reproduced": True, "failing_inputs": bad[:3]}
         for trial in range(6):
